@@ -99,10 +99,19 @@ def judgeHost (id : String) (bases : List Bytes) (host : Bytes) (modelOut implOu
     | some (d, b) =>
       -- the implementation must name that domain and, up to ASCII case, that bucket label
       !(implOut = showVh (some ⟨d, b⟩) || implOut = showVh (some ⟨d, b.map lowerAscii⟩))
+  -- a host outside the base domains names the bucket `uri-host` in lower case, without the port
+  let cnameBad : Bool :=
+    match specResolve bases host, cnameBucket bases host with
+    | none, some b => (implOut.splitOn ":").getLast? ≠ some (optHexEncode (some b))
+    | _, _ => false
   if specBad then
     specfail id (hostFailClass bases host) s!"host {hexEncode host} belongs to a configured base domain but was resolved as {implOut}"
+  else if cnameBad then
+    specfail id (if host.contains 58 then "host-port-in-bucket" else "host-resolution-wrong")
+      s!"host {hexEncode host} is outside the base domains and names the bucket {hexEncode ((cnameBucket bases host).getD [])} but was resolved as {implOut}"
   else if modelOut ≠ implOut then disagree id modelOut implOut
-  else agree id (pfx ++ kindOf implOut)
+  else agree id (pfx ++ kindOf implOut ++
+    (if (cnameBucket bases host).isSome && (specResolve bases host).isNone && host.contains 58 then "-port" else ""))
 
 /-- spec level: a text that is certainly not a domain name (empty, a character outside
     `[A-Za-z0-9.:-]`, an empty label) -/
@@ -166,7 +175,10 @@ def specClassify (cfg : HostCfg) (host : Option Bytes) (uriPath : Bytes) : Optio
       else if isSocketAddrOrIpAddr h then some none
       else match specResolve (cfgBases cfg) h with
         | some (_, b) => some b
-        | none => none
+        | none => (cnameBucket (cfgBases cfg) h).map some
+  let vstyle : String := match host with
+    | some h => if (specResolve (cfgBases cfg) h).isNone then (if h.contains 58 then "cname-port" else "cname") else "vhost"
+    | none => "vhost"
   match viaHost with
   | none => none
   | some vb =>
@@ -174,7 +186,7 @@ def specClassify (cfg : HostCfg) (host : Option Bytes) (uriPath : Bytes) : Optio
     | 47 :: rest =>
       let bk : Option (Bytes × Bytes × String) :=
         match vb with
-        | some b => some (b, rest, "vhost")
+        | some b => some (b, rest, vstyle)
         | none =>
           -- the bucket segment is also decoded strictly once; no opinion if that yields a slash
           let after := rest.dropWhile (· ≠ 47)
@@ -223,7 +235,11 @@ def judgeClassify (id : String) (cfg : HostCfg) (host : Option Bytes) (raw : Byt
           let caseOnly : Bool := match host with
             | some h => (specResolve (cfgBases cfg) h).isSome && !exactMember (cfgBases cfg) h
             | none => false
+          let cnamePort : Bool := match host with
+            | some h => (specResolve (cfgBases cfg) h).isNone && (cnameBucket (cfgBases cfg) h).isSome && h.contains 58
+            | none => false
           let cls := if caseOnly then "host-case-sensitive"
+            else if cnamePort then "host-port-in-bucket"
             else if want = "refuse-ipv4-like-bucket" then "bucket-ipv4-like-accepted"
             else if want = "refuse-bucket" then "bucket-core-rule-accepted"
             else if want = "refuse-key" then "key-too-long-accepted"
